@@ -32,8 +32,13 @@ type Entry struct {
 	Written bool
 	Kind    string // out | inside-dir | extra | tmp
 	Token   string
-	Job     *simrun.Job
-	Param   string // output parameter the value sits in (Kind out)
+	Job     *simrun.Job `json:"-"`
+	Param   string      // output parameter the value sits in (Kind out)
+	// who wrote it, in a form that survives the process (engine E2)
+	JobName  string // identity of the job
+	CallPath string
+	Phase    string
+	Split    bool // the stage splits
 }
 
 type Ledger struct {
@@ -84,6 +89,10 @@ func (l *Ledger) Norm(v any) any {
 }
 
 func (l *Ledger) add(e *Entry) {
+	if e.Job != nil && e.JobName == "" {
+		e.JobName, e.CallPath, e.Phase = e.Job.String(), e.Job.CallPath, e.Job.Phase
+		e.Split = e.Job.Stage != nil && e.Job.Stage.Split
+	}
 	if old := l.Entries[e.Path]; old != nil {
 		// two outputs of one job drew the same token: one file
 		return
@@ -105,6 +114,30 @@ func (l *Ledger) writeFile(j *simrun.Job, path, token, kind, param string) error
 	}
 	l.add(&Entry{Path: path, Content: c, Written: true, Kind: kind, Token: token, Job: j, Param: param})
 	return nil
+}
+
+// LeafKind says what the token of a file-ish output position becomes (a pure
+// function of the declared base type and the token): "plain" (stays a
+// string), "never" (a path is returned but nothing is written), "dir", "link",
+// "chain" (a link to a link in a sub-directory), "file".
+func LeafKind(base, token string) string {
+	h := hash(token)
+	switch {
+	case base == "string" || base == "map":
+		if h%3 != 0 {
+			return "plain"
+		}
+		return "file"
+	case base == "path" && h%2 == 0 && h%13 != 0:
+		return "dir"
+	case h%13 == 0:
+		return "never"
+	case h%14 == 1:
+		return "chain"
+	case h%7 == 1:
+		return "link"
+	}
+	return "file"
 }
 
 // leaf decides what a token in a file-ish position becomes.
